@@ -181,7 +181,8 @@ pub fn admin_menu() -> Vec<Op> {
         v.push(Op::FeeWithdraw { sender: p.clone() });
         v.push(Op::AddValidator { sender: p.clone(), which: 0 });
         v.push(Op::RemoveValidator { sender: p.clone(), which: 0 });
-        v.push(Op::TransferOwnership { sender: p.clone() });
+        v.push(Op::TransferOwnership { sender: p.clone(), to: P::Nominee });
+        v.push(Op::TransferOwnership { sender: p.clone(), to: p.clone() });
         v.push(Op::AcceptOwnership { sender: p.clone() });
         v.push(Op::RevokeOwnership { sender: p.clone() });
         v.push(Op::UpdateConfig { sender: p.clone(), sections: 31 });
